@@ -140,3 +140,18 @@ def _v52(repo, mod):
     src = src.replace("                result = ExecutionResult(timeout=True)\n                _LOGGER.warning(\"Experienced timeout from test-case execution\")\n", "                result = ExecutionResult(timeout=True)\n                result.num_executed_statements = started_statements[0]\n                _LOGGER.warning(\"Experienced timeout from test-case execution\")\n")
     src = src.replace("                    _LOGGER.error(\"Bug in Pynguin!\")\n                    result = ExecutionResult(timeout=True)\n", "                    _LOGGER.error(\"Bug in Pynguin!\")\n                    result = ExecutionResult(timeout=True)\n                    result.num_executed_statements = started_statements[0]\n")
     return src
+
+
+@variant("C17", "one-observer-per-class", "pynguin.testcase.execution", "C17.budgets", "add_observer drops a second observer of the same class")
+def _v60(repo, mod):
+    fn = repo.func("pynguin.testcase.execution", "TestCaseExecutor.add_observer")
+    s = find_stmt(fn, lambda s: isinstance(s, ast.Expr) and norm(s) == "self._observers.append(observer)")
+    return replace_node(mod, s, "if not any(type(existing) is type(observer) for existing in self._observers):\n            self._observers.append(observer)")
+
+
+@variant("C17", "budgets-keyed-by-their-limit", FAC, "C17.budgets", "equal limits collapse into one stopping condition")
+def _v61(repo, mod):
+    from sa.selftest.harness import text_edit
+    old = "        if (max_stmt := stopping.maximum_statement_executions) >= 0:\n            conditions.append(MaxStatementExecutionsStoppingCondition(max_stmt))\n"
+    new = "        if (max_stmt := stopping.maximum_statement_executions) >= 0 and max_stmt != stopping.maximum_iterations:\n            conditions.append(MaxStatementExecutionsStoppingCondition(max_stmt))\n"
+    return text_edit(mod, old, new)
